@@ -152,121 +152,8 @@ fn c05_unit_bin_s6() {
     unit_binary::<6>()
 }
 
-// ---------------------------------------------------------------------------------------------
-// Level H: whole one-entry headers through the real parse_header
-// ---------------------------------------------------------------------------------------------
-
-/// [entry(16) | store(S)] with concrete type TY; tag, offset, count, store symbolic.
-/// ASCII: store bytes restricted to 0..0x7f (A2) for the string types.
-fn one_entry_bytes<const TY: u32, const S: usize, const N: usize>(ascii: bool) -> ([u8; N], u32, i32, u32) {
-    let mut b = [0u8; N];
-    let tag: u32 = kani::any();
-    let off: i32 = kani::any();
-    let cnt: u32 = kani::any();
-    b[0..4].copy_from_slice(&tag.to_be_bytes());
-    b[4..8].copy_from_slice(&TY.to_be_bytes());
-    b[8..12].copy_from_slice(&off.to_be_bytes());
-    b[12..16].copy_from_slice(&cnt.to_be_bytes());
-    let mut i = 0;
-    while i < S {
-        let x: u8 = kani::any();
-        if ascii {
-            kani::assume(x < 0x80);
-        }
-        b[16 + i] = x;
-        i += 1;
-    }
-    (b, tag, off, cnt)
-}
-
-/// C04 Level H: no panic for ANY offset / count (no functional assertion).
-fn c04_entry<const TY: u32, const S: usize, const N: usize>(ascii: bool) {
-    let (b, _tag, off, cnt) = one_entry_bytes::<TY, S, N>(ascii);
-    let r = Header::<IndexTag>::parse_header(IndexHeader::new(1, S as u32), &b[..]);
-    kani::cover!(r.is_ok(), "header accepted");
-    kani::cover!(r.is_err(), "header rejected");
-    std::mem::forget(r);
-}
-
-/// C04 sibling: same, with the known-bad region (offset outside 0..=S) assumed away.
-fn c04_entry_ok<const TY: u32, const S: usize, const N: usize>(ascii: bool) {
-    let (b, _tag, off, cnt) = one_entry_bytes::<TY, S, N>(ascii);
-    kani::assume(off >= 0 && off as usize <= S);
-    let r = Header::<IndexTag>::parse_header(IndexHeader::new(1, S as u32), &b[..]);
-    kani::cover!(r.is_ok(), "header accepted");
-    kani::cover!(r.is_err(), "header rejected");
-    std::mem::forget(r);
-}
-
-/// C01 Level H: parse -> write reproduces the bytes; written bytes are a fixpoint.
-fn c01_entry<const TY: u32, const S: usize, const N: usize, const TOTAL: usize>(ascii: bool) {
-    let (b, _tag, off, cnt) = one_entry_bytes::<TY, S, N>(ascii);
-    kani::assume(off >= 0 && off as usize <= S); // outside: C04's business (known finding / fix)
-    let r = Header::<IndexTag>::parse_header(IndexHeader::new(1, S as u32), &b[..]);
-    if let Ok(h) = &r {
-        let mut out = ArrSink::<TOTAL>::new();
-        let w = h.write(&mut out);
-        assert!(w.is_ok());
-        assert!(out.len == TOTAL, "written header has intro + entry + store bytes");
-        // intro
-        assert!(out.buf[0] == 0x8e && out.buf[1] == 0xad && out.buf[2] == 0xe8 && out.buf[3] == 0x01);
-        assert!(out.buf[8..12] == 1u32.to_be_bytes() && out.buf[12..16] == (S as u32).to_be_bytes());
-        assert!(eq_prefix(&out.buf[16..], &b, N), "entry and store bytes reproduced verbatim");
-        // fixpoint: parse(out) == h and writes the same
-        let r2 = Header::<IndexTag>::parse_header(IndexHeader::new(1, S as u32), &out.buf[16..]);
-        assert!(r2.is_ok(), "written bytes parse again");
-        let h2 = r2.as_ref().unwrap();
-        assert!(h2.index_entries[0].tag == h.index_entries[0].tag
-            && h2.index_entries[0].offset == h.index_entries[0].offset
-            && h2.index_entries[0].num_items == h.index_entries[0].num_items
-            && h2.index_entries[0].data.type_as_u32() == TY, "re-parsed entry equal");
-        assert!(h2.store.len() == S && eq_prefix(&h2.store, &h.store, S), "re-parsed store equal");
-        kani::cover!(true, "header accepted");
-        kani::cover!(cnt > 1, "accepted with count > 1");
-        std::mem::forget(w);
-        std::mem::forget(r2);
-    }
-    std::mem::forget(r);
-}
-
-macro_rules! lvl_h {
-    ($name:ident, $f:ident, $ty:expr, $s:expr, $unw:expr, $ascii:expr) => {
-        #[kani::proof]
-        #[kani::unwind($unw)]
-        #[kani::stub(alloc::fmt::format, fmt_stub)]
-        #[kani::stub(alloc::string::String::from_utf8_lossy, from_utf8_lossy_ascii)]
-        fn $name() {
-            $f::<$ty, $s, { 16 + $s }>($ascii)
-        }
-    };
-}
-macro_rules! lvl_h01 {
-    ($name:ident, $ty:expr, $s:expr, $unw:expr, $ascii:expr) => {
-        #[kani::proof]
-        #[kani::unwind($unw)]
-        #[kani::stub(alloc::fmt::format, fmt_stub)]
-        #[kani::stub(alloc::string::String::from_utf8_lossy, from_utf8_lossy_ascii)]
-        fn $name() {
-            c01_entry::<$ty, $s, { 16 + $s }, { 32 + $s }>($ascii)
-        }
-    };
-}
-
-// probes / Level H families: type ids 0 Null, 1 Char, 2 Int8, 3 Int16, 4 Int32, 5 Int64, 6 String, 7 Bin, 8 StringArray, 9 I18N
-lvl_h!(c04_entry_null, c04_entry, 0, 2, 40, false);
-lvl_h!(c04_entry_int32, c04_entry, 4, 8, 40, false);
-lvl_h!(c04_entry_bin, c04_entry, 7, 4, 40, false);
-lvl_h!(c04_entry_string, c04_entry, 6, 3, 40, true);
-lvl_h!(c04_entry_strarr, c04_entry, 8, 3, 40, true);
-lvl_h!(c04_entry_ok_null, c04_entry_ok, 0, 2, 40, false);
-lvl_h!(c04_entry_ok_int32, c04_entry_ok, 4, 8, 40, false);
-lvl_h!(c04_entry_ok_bin, c04_entry_ok, 7, 4, 40, false);
-lvl_h!(c04_entry_ok_string, c04_entry_ok, 6, 3, 40, true);
-lvl_h!(c04_entry_ok_strarr, c04_entry_ok, 8, 3, 40, true);
-lvl_h01!(c01_entry_null, 0, 2, 40, false);
-lvl_h01!(c01_entry_int32, 4, 8, 44, false);
-lvl_h01!(c01_entry_bin, 7, 4, 40, false);
-lvl_h01!(c01_entry_string, 6, 3, 40, true);
+// Level H (whole headers through Header::parse) is decided by the MIR engine: engines/harnesses_pkg.py hdr_parse.
+// Under Kani the same harnesses did not finish in 30 minutes (see DESIGN.md).
 
 #[cfg(test)]
 include!("/verif/replays/_gen/header.rs");
